@@ -2,6 +2,7 @@ package verifharness
 
 import (
 	"errors"
+	"net/url"
 	"time"
 
 	"github.com/form3tech-oss/f1/v2/pkg/f1"
@@ -19,6 +20,11 @@ type scenRT struct {
 }
 
 var errPlanned = errors.New("harness-planned-failure")
+
+// badError is an error value that cannot be rendered.
+type badError struct{}
+
+func (badError) Error() string { panic("harness: Error() of the panic value panics") }
 
 func behave(t *f1t.T, b int) {
 	switch b {
@@ -57,6 +63,11 @@ func behave(t *f1t.T, b int) {
 		panic([]string{"harness-planned-panic"})
 	case bPanicMap:
 		panic(map[string]int{"harness-planned-panic": 1})
+	case bPanicNilStringer:
+		var u *url.URL
+		panic(u)
+	case bPanicBadError:
+		panic(badError{})
 	case bPanicFunc:
 		panic(func() string { return "harness-planned-panic" })
 	case bHelperErrorf:
@@ -181,6 +192,14 @@ func (rt *scenRT) body(t *f1t.T) {
 		t.Time(plan.stageName(), func() { behave(t, plan.Behav) })
 	} else {
 		behave(t, plan.Behav)
+	}
+	if plan.LateHelperNs > 0 {
+		// a helper goroutine the body forgot: it reports an error on the handle after its iteration is over
+		d := plan.LateHelperNs
+		go func() {
+			time.Sleep(time.Duration(d))
+			t.Errorf("late report from a helper goroutine of an iteration that is over")
+		}()
 	}
 	if plan.After > 0 {
 		time.Sleep(time.Duration(plan.After))
